@@ -25,6 +25,7 @@ NOT_YET = {}
 WIDE = {"C01", "C02", "C06", "C08", "C09", "C10", "C11", "C12", "C13", "C15", "C18"}
 MULTI = {"C01", "C02", "C06", "C08", "C09", "C10", "C11", "C12", "C13", "C15", "C18", "C20"}
 LONG = {"C01", "C06", "C08", "C09", "C11"}
+ROLLBACK_WRITE = {"C02", "C06", "C12"}
 VOUCHER = {"C01", "C02", "C13", "C15", "C18", "C20"}
 EXTRA_TEXT = {
  "C03": "msgseq also in blocks that carry a dust gas fee in the sold asset (masterchef's end-block conversion runs after the amm end-blocker, through the same pool).",
@@ -64,6 +65,8 @@ def main():
             text += " Multi-message transactions: every ordered pair of a same-signer op set as ONE signed transaction, and every op followed by a message that fails at delivery (the whole transaction must roll back), then one more block."
         if pid in EXTRA_TEXT:
             text += " " + EXTRA_TEXT[pid]
+        if pid in ROLLBACK_WRITE:
+            text += " Rollback then write: a transaction whose last message fails next to a successful transaction of another account that writes the same module-wide record, in one block, both orders."
         if pid in VOUCHER:
             text += " Voucher venue (root R23): the fixture's fourth asset is an IBC voucher with 18 decimals whose asset-profile base denom differs from its denom; a constant-product pool of it whose price the ops push far from the oracle's, pending spot orders in it, a gas fee paid in it."
         if pid in LONG:
